@@ -117,6 +117,22 @@ WORKSPACES = {
             "module nhelper\n  implicit none\ncontains\n  subroutine nhelp(a, b)\n    integer :: a\n    real, optional :: b\n  end subroutine nhelp\nend module nhelper\n",
         ],
     },
+    # what the links of a file resolve to depends on entities it obtains by INCLUDE (dummy arguments declared in an
+    # included file): includes have to be in place before links are resolved, also for the file that was just saved
+    "W9_include_args": {
+        "isolve.f90": [
+            "subroutine isolve(n, tol, res)\n  implicit none\n  include 'isolve_args.f90'\n  res = tol * n\nend subroutine isolve\n",
+            "subroutine isolve(n, tol, res)\n  implicit none\n  include 'isolve_args.f90'\n  integer :: extra_local\n  extra_local = n\n  res = tol * n\nend subroutine isolve\n",
+        ],
+        "isolve_args.f90": [
+            "  integer :: n\n  real :: tol\n  real :: res\n",
+            "  integer :: n\n  real(8) :: tol\n  real(8) :: res\n",
+            "  ! nothing is declared here any more\n",
+        ],
+        "icall.f90": [
+            "program icall\n  implicit none\n  real :: r\n  call isolve(1, 2.0, r)\nend program icall\n",
+        ],
+    },
     "W4_preproc": {
         "pp.F90": [
             "program pp\n#define LOCAL_PP_ONLY 1\n#ifdef LOCAL_PP_ONLY\n  integer :: seen_local\n#endif\n#include \"hh.h\"\n#ifdef FROM_HH\n  integer :: seen_hh\n#endif\n  include 'decl.f90'\n  from_decl = 1\nend program pp\n",
@@ -134,7 +150,7 @@ WORKSPACES = {
     },
 }
 ARGV = {"W7_limits": ["--max_line_length", "50", "--max_comment_line_length", "40"]}
-QUERY = {"W8_newdir": ("nu.f90", 3, 8), "W7_limits": ("k.f90", 1, 6), "W6_move": ("user.f90", 3, 4), "W5_chain3": ("leaf.f90", 9, 6), "W1_types": ("u.f90", 4, 4), "W2_procs": ("b.f90", 9, 10), "W3_inherit": ("c.f90", 10, 9), "W4_preproc": ("pp.F90", 10, 4)}
+QUERY = {"W9_include_args": ("icall.f90", 3, 9), "W8_newdir": ("nu.f90", 3, 8), "W7_limits": ("k.f90", 1, 6), "W6_move": ("user.f90", 3, 4), "W5_chain3": ("leaf.f90", 9, 6), "W1_types": ("u.f90", 4, 4), "W2_procs": ("b.f90", 9, 10), "W3_inherit": ("c.f90", 10, 9), "W4_preproc": ("pp.F90", 10, 4)}
 
 
 def admissible(ws, disk):
